@@ -25,6 +25,8 @@ pub struct GenCfg {
     pub producers: bool,
     /// name section = module name + function names only
     pub names_simple: bool,
+    /// the name section always carries a module name
+    pub names_module: bool,
     /// add `.debug_*` custom sections with junk payloads (only meaningful when DWARF generation is off)
     pub junk_debug: bool,
     /// additionally export every function as `__f<index>` (lets oracles follow functions through reordering)
@@ -63,6 +65,7 @@ impl GenCfg {
             names: false,
             producers: false,
             names_simple: false,
+            names_module: false,
             junk_debug: false,
             export_all_funcs: false,
             dead_code: true,
@@ -93,6 +96,7 @@ impl GenCfg {
             names: true,
             producers: true,
             names_simple: false,
+            names_module: false,
             junk_debug: false,
             export_all_funcs: false,
             dead_code: true,
@@ -885,7 +889,9 @@ impl<'a, 'b> FnCtx<'a, 'b> {
                     self.emit(I::MemoryFill(m));
                 }
                 _ => {
-                    if self.c.n_data > 0 && self.c.passive_data {
+                    // `data.drop` / `memory.init` of an active segment is valid too (the segment is
+                    // dropped after instantiation: init of a non-empty range traps, drop is a no-op)
+                    if self.c.n_data > 0 && (self.c.passive_data || rng.chance(1, 3)) {
                         let dseg = rng.below(self.c.n_data as u64) as u32;
                         self.c.uses_data_index = true;
                         if rng.chance(1, 2) {
@@ -1349,6 +1355,7 @@ pub fn gen_module(rng: &mut Rng, cfg: &GenCfg) -> Generated {
     let mut n_data = 0;
     let mut passive_data = false;
     let mut data_specs = vec![];
+    let mut last_active: Vec<(u32, u64, usize)> = vec![];
     for _ in 0..ndata {
         let len = *rng.pick(&[0usize, 1, 3, 17, 127, 128, 300]);
         let mut bytes: Vec<u8> = (0..len).map(|_| rng.next() as u8).collect();
@@ -1367,7 +1374,14 @@ pub fn gen_module(rng: &mut Rng, cfg: &GenCfg) -> Generated {
             let off_ty = if mems[m as usize].is64 { VT::I64 } else { VT::I32 };
             let off = if cfg.instantiable {
                 let room = mems[m as usize].min * 65536 - len as u64;
-                let o = if rng.chance(1, 2) { rng.below(512.min(room + 1)) } else { room - rng.below(64.min(room + 1)) };
+                // a later segment often lands on an earlier one of the same memory (the later bytes,
+                // zeros included, win)
+                let prev: Option<(u64, usize)> = last_active.iter().rev().find(|p: &&(u32, u64, usize)| p.0 == m).map(|p| (p.1, p.2));
+                let o = match prev {
+                    Some((po, pl)) if pl > 0 && rng.chance(1, 2) => (po + rng.below(pl as u64)).min(room),
+                    _ => if rng.chance(1, 2) { rng.below(512.min(room + 1)) } else { room - rng.below(64.min(room + 1)) },
+                };
+                last_active.push((m, o, len));
                 if off_ty == VT::I64 { ConstExpr::i64_const(o as i64) } else { ConstExpr::i32_const(o as i32) }
             } else {
                 match off_ty {
@@ -1497,7 +1511,7 @@ pub fn gen_module(rng: &mut Rng, cfg: &GenCfg) -> Generated {
     }
     if cfg.names && rng.chance(2, 3) {
         let mut names = NameSection::new();
-        if rng.chance(1, 2) || cfg.names_simple {
+        if rng.chance(1, 2) || cfg.names_simple || cfg.names_module {
             names.module(&format!("mod_{}", rand_name(rng)));
         }
         let mut fm = NameMap::new();
